@@ -59,3 +59,111 @@ def decoder_clock_box():
         yield box
     finally:
         decoder_mod.datetime = real
+
+
+# ----------------------------------------------------------------------------------------------------------------------
+# Hostile neighbourhood for the decoders the checks create.
+#
+# The checks import NMEA2000Decoder from this module. What they get is the library's class with its five public decode
+# entry points wrapped (nothing else: attributes, private methods and construction are the library's own). Depending on
+# HOSTILE (set per shard by vf.runner) a wrapped call
+#   neighbour  first hands a COPY of the same input to another decoder of the same process that is configured differently
+#              (unit preferences for every quantity; network mapping + manufacturer filter + a dump to /dev/null), two
+#              calls out of three. Neighbours are created lazily (i.e. after the decoder under observation) and replaced
+#              now and then. Their results and exceptions are discarded. Decoders are independent objects: what a neighbour
+#              decodes, converts, caches or trips over must not show in what this decoder returns.
+#   reuse      hands the packet over in one bytearray per decoder that is refilled for every call (the buffer of a read
+#              loop): a decoder that needs a frame beyond the call has to copy it.
+#   scribble   returns a copy of the message (own field objects; the source identity object stays shared, as in the
+#              library) and then overwrites the object the library returned: a returned message is the caller's, the
+#              library must not keep using it.
+# All three only add activity that a correct library is indifferent to; the oracles of the checks are unchanged.
+HOSTILE = {"neighbour": False, "reuse": False, "scribble": False}
+HOSTILE_STATS = {"neighbour_calls": 0, "neighbours_created": 0, "reused_buffer_calls": 0, "scribbled_messages": 0}
+_RealDecoder = NMEA2000Decoder
+_NEIGH = {"list": [], "calls": 0}
+
+
+def _neighbours():
+    st = _NEIGH
+    if not st["list"] or st["calls"] % 5000 == 4999:
+        for d_ in st["list"]:
+            try:
+                d_.close()
+            except Exception:  # noqa: BLE001
+                pass
+        prefs = {PhysicalQuantities.TEMPERATURE: "C", PhysicalQuantities.PRESSURE: "bar", PhysicalQuantities.ANGLE: "deg", PhysicalQuantities.SPEED: "kts"}
+        prefs2 = {PhysicalQuantities.TEMPERATURE: "f", PhysicalQuantities.PRESSURE: "psi", PhysicalQuantities.ANGLE: "deg"}
+        st["list"] = [_RealDecoder(preferred_units=prefs),
+                      _RealDecoder(preferred_units=prefs2, build_network_map=True, exclude_manufacturer_code=["Garmin"], dump_to_file="/dev/null")]
+        HOSTILE_STATS["neighbours_created"] += len(st["list"])
+    return st["list"]
+
+
+def _scribble(m):
+    try:
+        for f in list(m.fields):
+            f.value, f.raw_value, f.unit_of_measurement, f.name = "scribbled-by-the-caller", 0x5A5A5A5A, "scribbled", "scribbled"
+            f.id = "scribbled"
+        m.fields.clear()
+        m.PGN, m.id, m.source, m.destination, m.priority, m.hash = 0, "scribbledByTheCaller", 254, 254, 7, "scribbled"
+        HOSTILE_STATS["scribbled_messages"] += 1
+    except Exception:  # noqa: BLE001  (a message that cannot be written to is not scribbled on)
+        pass
+
+
+def _hostile_call(self, real, arg, a, k):
+    import copy as _copy
+    h = HOSTILE
+    if getattr(self, "_vf_plain", False) or not (h["neighbour"] or h["reuse"] or h["scribble"]):
+        return real(self, arg, *a, **k)
+    if h["neighbour"]:
+        st = _NEIGH
+        st["calls"] += 1
+        if st["calls"] % 3 != 0:
+            for n_ in _neighbours():
+                try:
+                    real(n_, bytes(arg) if isinstance(arg, (bytes, bytearray, memoryview)) else arg, *a, **k)
+                except Exception:  # noqa: BLE001
+                    pass
+            HOSTILE_STATS["neighbour_calls"] += 1
+    scratch = None
+    if h["reuse"] and type(arg) is bytes:
+        scratch = self.__dict__.get("_vf_scratch")
+        if scratch is None:
+            scratch = self.__dict__["_vf_scratch"] = bytearray()
+        scratch[:] = arg
+        arg = scratch
+        HOSTILE_STATS["reused_buffer_calls"] += 1
+    m = real(self, arg, *a, **k)
+    if m is None:
+        return None
+    if scratch is not None and getattr(m, "raw_can_data", None) is scratch:
+        m.raw_can_data = bytes(scratch)          # what the message says about the frame it came from is the caller's business
+    if h["scribble"]:
+        ret = _copy.copy(m)
+        ret.fields = [_copy.copy(f) for f in m.fields]
+        _scribble(m)
+        return ret
+    return m
+
+
+class NMEA2000Decoder(_RealDecoder):          # noqa: F811  (deliberately replaces the name imported above)
+    def decode_tcp(self, packet, *a, **k):
+        return _hostile_call(self, _RealDecoder.decode_tcp, packet, a, k)
+
+    def decode_usb(self, packet, *a, **k):
+        return _hostile_call(self, _RealDecoder.decode_usb, packet, a, k)
+
+    def decode_basic_string(self, s, *a, **k):
+        return _hostile_call(self, _RealDecoder.decode_basic_string, s, a, k)
+
+    def decode_actisense_string(self, s, *a, **k):
+        return _hostile_call(self, _RealDecoder.decode_actisense_string, s, a, k)
+
+    def decode_yacht_devices_string(self, s, *a, **k):
+        return _hostile_call(self, _RealDecoder.decode_yacht_devices_string, s, a, k)
+
+
+NMEA2000Decoder.__name__ = _RealDecoder.__name__
+NMEA2000Decoder.__qualname__ = _RealDecoder.__qualname__
